@@ -3,13 +3,13 @@ package main
 // Contract use / verify machinery, intrinsics, pure evaluation, obligations.
 
 import (
-	"os"
 	"crypto/sha1"
-	"sync"
 	"fmt"
 	"go/token"
 	"go/types"
+	"os"
 	"strings"
+	"sync"
 
 	"golang.org/x/tools/go/ssa"
 )
@@ -156,6 +156,52 @@ func (x *Run) intrinsic(fr *Frame, st *State, fn *ssa.Function, args []Val, site
 			}
 		}
 		return single(st, x.freshVal(st, "nofv", fn.Signature.Results().At(0).Type())), true
+	case "HavocExcept":
+		// HavocExcept(keep...): arbitrary effects on everything except the heap
+		// arrays whose name contains one of the strings (specification of calls
+		// to unknown code with a stated frame)
+		var keep []string
+		if len(args) == 1 && args[0].Tup != nil {
+			for _, e := range args[0].Tup {
+				if s, ok := x.litString(e.T); ok {
+					keep = append(keep, s)
+				}
+			}
+		}
+		x.mu.Lock()
+		x.trusted["assumed-frame-of-unknown-code:"+x.fnShort(fr.fn)+" keeps "+strings.Join(keep, " ")] = true
+		x.mu.Unlock()
+		x.havocAllExcept(st, keep)
+		st.dirty["*"] = true
+		return single(st, unit), true
+	case "FieldTag", "FieldType":
+		// FieldTag[T](name) / FieldType[T](name): the struct tag / the Go type of
+		// field name of struct type T, read from the type-checked source
+		res := "<no such field>"
+		if ta := fn.TypeArgs(); len(ta) == 1 {
+			if stt, ok := types.Unalias(ta[0]).Underlying().(*types.Struct); ok {
+				fname, _ := x.litString(args[0].T)
+				for i := 0; i < stt.NumFields(); i++ {
+					if stt.Field(i).Name() == fname {
+						if name == "FieldTag" {
+							res = stt.Tag(i)
+						} else {
+							var own *types.Package
+							if nt, ok := types.Unalias(ta[0]).(*types.Named); ok {
+								own = nt.Obj().Pkg()
+							}
+							res = types.TypeString(stt.Field(i).Type(), func(p *types.Package) string {
+								if p == own {
+									return ""
+								}
+								return p.Name()
+							})
+						}
+					}
+				}
+			}
+		}
+		return single(st, Val{T: x.d.lit(res), S: SStr, Ty: types.Typ[types.String]}), true
 	case "SameObject", "Same":
 		return single(st, Val{T: eq(args[0].T, args[1].T), S: SBool}), true
 	case "SentOn":
